@@ -148,6 +148,13 @@ class Up:
         w = self.w
         kind, slot = ev
         real = slot == self.real
+        if kind == "HUPB":
+            # a HUP after the bind setting was edited (oracle-only histories: Model/Upgrade.v has no re-binding): the master moves
+            # to another address; what it leaves behind still belongs to the other master of a pending upgrade
+            if real:
+                w.apply_env(("B", ["unix:/run/gv/moved.sock"] if self.cfg["unix"] else ["127.0.0.1:8099"]))
+            kind = "HUP"
+            ev = ("HUP", slot)
         if kind in ("USR2", "Stop", "HUP", "WINCH") and real:
             signo = {"USR2": SIG["USR2"], "Stop": self.cfg.get("stop_sig", SIG["TERM"]), "HUP": SIG["HUP"], "WINCH": SIG["WINCH"]}[kind]
             self.phase = "busy"
@@ -525,6 +532,23 @@ def run_sim(ctx):
                                  "observations": [[repr(e), o] for e, o in u.obs]}, key=key)
         if len(ex) >= 4:
             ctx.sample({"cfg": cfg, "real": real, "events": [list(e) for e in evs]})
+    # re-binding reloads inside an upgrade (oracle only)
+    for unix in (True, False):
+        cfg = base_cfg(True, unix)
+        for real, evs in (("A", [("USR2", "A"), ("HUPB", "A"), ("Stop", "A")]),
+                          ("A", [("USR2", "A"), ("HUPB", "A"), ("Stop", "B"), ("NoticeChild", "A")]),
+                          ("B", [("HUPB", "B"), ("Stop", "A"), ("NoticeParent", "B")]),
+                          ("A", [("HUPB", "A"), ("USR2", "A"), ("Stop", "A")])):
+            u = run_history(cfg, real, evs)
+            ctx.count_case(("rebind", unix, real, tuple(evs)), True)
+            ctx.hist("event", "HUP with a changed bind setting (real)")
+            for text, key in judge(cfg, real, u):
+                if "socket file" not in text and "died" not in text:
+                    continue                     # (the other sentences of the judge are stated for an unchanged address)
+                nfail += 1
+                ctx.violation("reload to another address inside an upgrade: " + text,
+                              {"kind": "history", "cfg": cfg, "real": real, "events": [list(e) for e in evs],
+                               "observations": [[repr(e), o] for e, o in u.obs]}, key=key)
     ctx.log("ran %d upgrade histories on the real Arbiter; %d oracle failures" % (len(cases), nfail))
     bad = ctx.correspond("upgrade", HEADER, corr, shard=120)
     if bad:
